@@ -464,7 +464,17 @@ func run(cfg Config, main func()) (*Result, chan struct{}) {
 		})
 		k := 0
 		if len(run) > 1 {
-			k = cfg.Tape.Choose("sched", len(run)) % len(run)
+			if sc, ok := cfg.Tape.(interface {
+				ChooseSched(ids []int, lastRunnable bool) int
+			}); ok {
+				ids := make([]int, len(run))
+				for i, x := range run {
+					ids[i] = x.ID
+				}
+				k = sc.ChooseSched(ids, run[0] == s.last) % len(run)
+			} else {
+				k = cfg.Tape.Choose("sched", len(run)) % len(run)
+			}
 		}
 		g := run[k]
 		if k == 0 && len(run) > 1 && g == s.last && g.spinning() {
